@@ -98,7 +98,23 @@ def family_units(families, archs, tables, only=None, sec=True, virt=False, tag='
                 have = {n for k, n, w, v in E.items if k == 'f'}
                 kw['fix'] = {k: v for k, v in QUICK_PIN[name].items() if k in have}
                 pin_tag = '/regs-pinned'
-            for suf, kwc in split_cases(name, kw):
+            extra_split = []
+            if os.environ.get('VERIF_TIER_ACTIVE', 'quick') == 'quick' and kw.get('mpu'):
+                # MPU-on units in the quick tier: the protection rules are the subject, the condition field is not --
+                # ARM rows run with cond = AL (C05 covers conditions), and the U bit is a case split (two units)
+                have = {n for k, n, w, v in E.items if k == 'f'}
+                fx = dict(kw.get('fix') or {})
+                if 'cond' in have and 'cond' not in fx:
+                    fx['cond'] = 14
+                    pin_tag += '/AL'
+                kw['fix'] = fx
+                if 'U' in have and 'U' not in fx and name not in SPLIT:
+                    extra_split = [('U', 2)]
+            cases = split_cases(name, kw)
+            for field, n_ in extra_split:
+                cases = [('%s/%s=%d' % (suf, field, v), dict(k, fix=dict(k.get('fix') or {}, **{field: v})))
+                         for suf, k in cases for v in range(n_)]
+            for suf, kwc in cases:
                 u = UnitSpec('step/%s/v%d%s%s%s' % (name, arch, tag, pin_tag, suf), 'vf.step', 'mk_step', kwc, max_seconds=900,
                              weight=2.0 if 'RegisterA1' in name or 'T2' in name else 1.0)
                 if suf:
